@@ -100,10 +100,26 @@ package types
 //@   assert[c02-new-hash-is-new] before "mask[txhash] = true" : forall a int :: 0 <= a && a < int(i) ==> hashes[a] != txhash
 //@   ensures source.off <= uint64(len(source.s))
 //@   ensures[c02-no-duplicate] err == nil ==> forall a int, b int :: 0 <= a && a < b && b < gN ==> sel(gA, gO + uint64(a)) != sel(gA, gO + uint64(b))
-//@   ensures[c02-root] err == nil ==> self.Header != nil && self.Header.TransactionsRoot == txRootOf(gA, gO, gN)
+//@   ensures[c02-root] err == nil ==> self.Header != nil && (gN > 0 ==> self.Header.TransactionsRoot == mroot(gA, gO, uint64(gN)))
+//@   ensures[c02-root-empty] err == nil && gN == 0 ==> forall k int :: 0 <= k && k < 32 ==> self.Header.TransactionsRoot[k] == 0
 //@   ensures[c02-root-of-these] err == nil ==> len(self.Transactions) == gN && forall a int :: 0 <= a && a < gN ==> self.Transactions[a].hash == sel(gA, gO + uint64(a))
 
 //@ uf multiAddrOf(keys uint64, n int, m int) [20]byte
 //@ func AddressFromMultiPubKeys
 //@   trusted   -- program hash of the m-of-n verification program over the keys: a function of the key list and m (C39); the encoder error is swallowed and yields the empty address
 //@   ensures r1 == nil && r0 == multiAddrOf(ref(pubkeys), len(pubkeys), m)
+
+// the root committed in a block header is the reference root over the transaction hashes in block order
+//@ func (*Block).RebuildMerkleRoot
+//@   property C03
+//@   mode abstract
+//@   nopanic on
+//@   requires b != nil && b.Header != nil && len(b.Transactions) <= 4294967296 && (forall a int :: 0 <= a && a < len(b.Transactions) ==> b.Transactions[a] != nil)
+//@   modifies b.Header.TransactionsRoot, wrIn
+//@   ghost var gA ArrU64B256
+//@   ghost var gO uint64 = 0
+//@   set before "hash := common.ComputeMerkleRoot(hashes)" : gA := arr(hashes)
+//@   set before "hash := common.ComputeMerkleRoot(hashes)" : gO := off(hashes)
+//@   loop 1 invariant len(hashes) == it1 && forall a int :: 0 <= a && a < it1 ==> hashes[a] == txs[a].hash
+//@   ensures[c03-order] forall a int :: 0 <= a && a < len(b.Transactions) ==> sel(gA, gO + uint64(a)) == b.Transactions[a].hash
+//@   ensures[c03-header-root] len(b.Transactions) > 0 ==> b.Header.TransactionsRoot == mroot(gA, gO, uint64(len(b.Transactions)))
